@@ -191,9 +191,17 @@ func CheckC04(r *Report) {
 		return
 	}
 	r.Rule = "E3 scorespace: all 15,116,544 effective classes (severity-index tuples of the 15 scoring metrics) built as canonical objects through Set, Score() compared with the exact integer model (EQ predicates from the specification, highest-severity vectors and depths derived as Pareto maxima / severity spread, frozen 270-entry MacroVector table, exact half-up rounding); non-trivial = class with non-zero score"
-	r.Bound = "complete: every effective class, hence all 270 MacroVectors; representation independence is lifted by C10"
+	r.Bound = "complete: every effective class in canonical representation, hence all 270 MacroVectors; plus all-overridden/supplemental representations of every class and single deviations on a sub-lattice (all classes in thorough); deeper representation bounds in C10"
 	r.SetExtra("derived_model_tables", spec.V4Derived())
 	SweepV4(r, "C04", nil, true)
+	// lifting (shared with C10): all-overridden + supplemental representations of every class, and every single
+	// deviation on a sub-lattice (all classes in thorough)
+	sweepV4AllOverridden(r, r.Tier == "thorough")
+	if r.Tier == "thorough" {
+		sweepV4Lift(r, 1, nil, nil)
+	} else {
+		sweepV4Lift(r, 1, func(c spec.V4Class) bool { return diag9(c) && c[spec.V4AC] == c[spec.V4AT] && c[spec.V4PR] == c[spec.V4UI] }, nil)
+	}
 	mv := map[[6]int]bool{}
 	for idx := 0; idx < spec.V4NumClasses; idx += 1 {
 		mv[spec.V4MacroVector(spec.V4ClassFromIndex(idx))] = true
